@@ -86,6 +86,13 @@ class ParseSim:
             s = "".join(out)
         return s
 
+    def gen_deep_input(self, rng, gname):
+        """Deeply nested sentence (not clamped to 40 bytes): resource budgets shared between parses show here."""
+        dp = self.grammars[gname]["deep"]
+        n = rng.choice([30, 60, 100, 150, 200, 250])
+        s = dp["prefix"] + dp["open"] * n + dp["core"] + dp["close"] * (n if rng.coin(850) else n - 1) + dp["suffix"]
+        return s
+
     def related_input(self, rng, gname, prev):
         g = self.grammars[gname]
         k = rng.below(5)
@@ -137,9 +144,18 @@ class ParseSim:
         ntasks = rng.weighted([(2, 30), (3, 30), (4, 20), (5, 10), (6, 10)])
         gnames = sorted(self.grammars)
         focus = rng.coin(700)
-        if focus:
+        deep_sim = rng.coin(100)
+        if deep_sim:
+            g = rng.choice(sorted(n for n in gnames if "deep" in self.grammars[n]))
+            vs = [v["name"] for v in rng.sample(self.by_grammar[g], min(len(self.by_grammar[g]), rng.range(1, 2)))]
+            ntasks = rng.range(2, 4)
+        elif focus:
             g = rng.choice(gnames)
             vs = [v["name"] for v in rng.sample(self.by_grammar[g], min(len(self.by_grammar[g]), rng.range(1, 3)))]
+            rival = self.grammars[g].get("rival")
+            if rival:
+                # grammars that share all rule names but define them differently
+                vs += [v["name"] for v in rng.sample(self.by_grammar[rival], min(len(self.by_grammar[rival]), rng.range(1, 2)))]
         else:
             vs = [rng.choice(self.variants)["name"] for _ in range(rng.range(2, 5))]
         tasks = []
@@ -147,8 +163,12 @@ class ParseSim:
         est = 0
         for _ in range(ntasks):
             q = []
-            for _ in range(rng.range(1, 6)):
-                if prev_jobs and rng.coin(300):
+            for _ in range(rng.range(1, 2) if deep_sim else rng.range(1, 6)):
+                if deep_sim:
+                    vn = rng.choice(vs)
+                    v = self.by_name[vn]
+                    job = {"variant": vn, "rule": rng.choice(v["exported"]), "input": self.gen_deep_input(rng, v["grammar"]), "ctx": [0, 0]}
+                elif prev_jobs and rng.coin(300):
                     # deliberate repetition: the same (variant, input) again, maybe through another entry point
                     job = dict(rng.choice(prev_jobs))
                 elif prev_jobs and rng.coin(200):
@@ -160,17 +180,18 @@ class ParseSim:
                     v = self.by_name[vn]
                     job = {"variant": vn, "rule": rng.choice(v["exported"]), "input": self.gen_input(rng, v["grammar"]),
                            "ctx": self.gen_ctx(rng, v)}
-                job["entry"] = rng.weighted([("sim", 60), ("parse", 15), ("noop", 10), ("trace", 15)])
-                est += 150 if job["entry"] == "sim" else 4
+                job["entry"] = "sim" if deep_sim else rng.weighted([("sim", 60), ("parse", 15), ("noop", 10), ("trace", 15)])
+                est += (len(job["input"]) * 20 if deep_sim else 150) if job["entry"] == "sim" else 4
                 q.append(job)
                 prev_jobs.append(job)
             tasks.append(q)
         sim_seed = rng.next()
         plan = {
             "id": i, "sim_seed": sim_seed, "entropy": sim_seed >> 1,
-            "policy": self.gen_policy(rng, ntasks, est, vs),
-            "start_at": [0 if rng.coin(600) else rng.below(max(est // 2, 1)) for _ in range(ntasks)],
+            "policy": {"kind": "random", "switch_permille": rng.choice([2, 5, 20])} if deep_sim else self.gen_policy(rng, ntasks, est, vs),
+            "start_at": [0] * ntasks if deep_sim else [0 if rng.coin(600) else rng.below(max(est // 2, 1)) for _ in range(ntasks)],
             "fresh_threads": rng.coin(300),
+            "deep": deep_sim,
             "tasks": tasks,
         }
         return plan
@@ -383,7 +404,7 @@ def stats_init():
     return {"simulations": 0, "steps": 0, "switches": 0, "switches_inside_parse": 0, "cache_hits": 0, "leftrec_rounds": 0,
             "hook_events": 0, "rule_events": 0, "jobs": 0, "jobs_ok": 0, "jobs_err": 0, "overlap_same_variant": 0,
             "overlap_same_input": 0, "same_variant_follows_on_thread": 0, "same_input_again_on_thread": 0,
-            "fresh_thread_sims": 0, "unbalanced_trace_callbacks": 0, "failing_jobs_on_memoized_variants": 0}
+            "fresh_thread_sims": 0, "deep_nesting_sims": 0, "sims_mixing_grammars": 0, "unbalanced_trace_callbacks": 0, "failing_jobs_on_memoized_variants": 0}
 
 
 def run_check(prop, tier, seed, replay_path=None):
@@ -438,6 +459,9 @@ def run_check(prop, tier, seed, replay_path=None):
                       "overlap_same_variant", "overlap_same_input"):
                 stats[k] += out[k]
             stats["fresh_thread_sims"] += 1 if plan.get("fresh_threads") else 0
+            stats["deep_nesting_sims"] += 1 if plan.get("deep") else 0
+            if len({self_g for self_g in (ps.by_name[j["variant"]]["grammar"] for q in plan["tasks"] for j in q)}) > 1:
+                stats["sims_mixing_grammars"] += 1
             interleavings.add(out["switch_hash"])
             switch_points.update(out["switch_points"])
             same_variant_pair = False
